@@ -7,6 +7,9 @@ post_unmerge, final).  Around the `unmerge` hook the harness records the os-leve
 (harness/fsx.py) and snapshots the tree before and after.
   (A) trace + after-snapshot + raised flag  ==  Model_C20.run_case on (before-snapshot, offset,
       old, new)                                                            [evaluated in Coq]
+  Histories: sequences of 2-3 such operations on ONE root path in this process, with directories
+  turning into symlinks (and back) in between; every step is compared like a single case, so state the
+  implementation carries from one engine to the next (memos keyed by path) shows up.
   (B) Spec_C20.spec_ok on the implementation's after-snapshot              [evaluated in Coq]
       + the statement itself checked directly on the real snapshots         [`oracle`, Python]
 Stream `order`: the hook schedule of the three real engines vs Model_C20.run_names.
@@ -342,8 +345,16 @@ def alias_names(t):
 
 def gen_case(rng, n):
     t = gen_root(rng)
+    c = gen_pkgs(rng, t)
+    c.update({"n": n, "tree": t, "off": rng.choice(["o", "o", "o", "o/p", "s", ""]),
+              "slash": rng.random() < 0.3, "ext": rng.random() < 0.8, "post": False})
+    return c
+
+
+def gen_pkgs(rng, t, mode=None):
+    """an old (and for replace a new) package over the live tree t: {"mode", "old", "new", "flip"}"""
     names = sorted(t)
-    mode = rng.choice(["uninstall", "uninstall", "replace", "replace", "replace"])
+    mode = mode or rng.choice(["uninstall", "uninstall", "replace", "replace", "replace"])
     old = []
 
     def add(lst, p):
@@ -402,10 +413,115 @@ def gen_case(rng, n):
             if dirs:
                 add(new, rng.choice(dirs) + "/" + rng.choice(["n1", "n2", "nd/n3"]))
         rng.shuffle(new)
-    off = rng.choice(["o", "o", "o", "o/p", "s", ""])
     flip = [p for p in old if rng.random() < 0.06]      # recorded with the wrong type (the live type decides)
-    return {"n": n, "mode": mode, "tree": t, "old": old, "new": new, "off": off, "flip": flip,
-            "slash": rng.random() < 0.3, "ext": rng.random() < 0.8, "post": False}
+    return {"mode": mode, "old": old, "new": new, "flip": flip}
+
+
+# --------------------------------------------------------------------------- histories on one long-lived root
+# Every single case above runs on a fresh root path with fresh engines, so state that the
+# implementation carries from one engine to the next (process-wide memos keyed by path, class-level
+# caches) is invisible there.  A history is a SEQUENCE of engine operations on the SAME root path in
+# this process, with the layout of the tree changing in between (a directory becomes a symlink to its
+# new home, a symlink becomes a real directory again); every step is judged on its own by the
+# (stateless) model, the spec and the oracle, so any carried state shows up as a failure of that step.
+def read_tree(O):
+    """the live tree below the offset O as a generator-style dict"""
+    t = {}
+    for d, ds, fs_ in os.walk(O):
+        for name in ds + fs_:
+            fp = os.path.join(d, name)
+            rel = os.path.relpath(fp, O)
+            if os.path.islink(fp):
+                t[rel] = ("l", os.readlink(fp))
+            elif os.path.isdir(fp):
+                t[rel] = ("d",)
+            elif os.path.isfile(fp):
+                with open(fp, "rb") as f:
+                    t[rel] = ("f", canon_data(f.read()))
+            else:
+                t[rel] = ("p",)
+    return t
+
+
+def gen_mutation(rng, t):
+    """a layout change between two operations: ["migrate", D, D2] moves the content of the real
+    directory D into its sibling D2 and leaves D as a symlink to it; ["unlink-mkdir", D] replaces the
+    symlink D by a real (empty) directory; ["add", path, data] drops an unowned file"""
+    dirs = [k for k, v in t.items() if v[0] == "d" and not any(
+        t.get("/".join(k.split("/")[:i]), ("d",))[0] == "l" for i in range(1, k.count("/") + 1))]
+    syms = [k for k, v in t.items() if v[0] == "l" and resolve_lit(t, k + "/.") in t
+            and t[resolve_lit(t, k + "/.")][0] == "d"]
+    r = rng.random()
+    if dirs and r < 0.7:
+        # prefer directories that hold something
+        full = [d for d in dirs if any(k.startswith(d + "/") for k in t)] or dirs
+        D = rng.choice(full)
+        D2 = D + rng.choice(["64", "-real", ".d"])
+        if D2 not in t or t[D2][0] == "d":
+            return ["migrate", D, D2]
+    if syms and r < 0.9:
+        return ["unlink-mkdir", rng.choice(syms)]
+    if dirs:
+        return ["add", rng.choice(dirs) + "/" + rng.choice(["u1", "u2"]), "u"]
+    return None
+
+
+def apply_mutation(O, m):
+    if m is None:
+        return
+    if m[0] == "migrate":
+        D, D2 = os.path.join(O, m[1]), os.path.join(O, m[2])
+        if not os.path.isdir(D) or os.path.islink(D) or (os.path.lexists(D2) and not os.path.isdir(D2)):
+            return
+        os.makedirs(D2, exist_ok=True)
+        for name in os.listdir(D):
+            if not os.path.lexists(os.path.join(D2, name)):
+                os.rename(os.path.join(D, name), os.path.join(D2, name))
+            else:
+                p = os.path.join(D, name)
+                shutil.rmtree(p) if os.path.isdir(p) and not os.path.islink(p) else os.unlink(p)
+        os.rmdir(D)
+        os.symlink(os.path.basename(m[2]), D)
+    elif m[0] == "unlink-mkdir":
+        D = os.path.join(O, m[1])
+        if os.path.islink(D):
+            os.unlink(D)
+            os.mkdir(D)
+    elif m[0] == "add":
+        fp = os.path.join(O, m[1])
+        if os.path.isdir(os.path.dirname(fp)) and not os.path.lexists(fp):
+            with open(fp, "w") as f:
+                f.write(m[2])
+
+
+def directed_pkgs(rng, t, D, D2=None):
+    """a replace whose packages live below D: before the migration (D2 None) old and new both list
+    files below D; after it the old package is still recorded below D (now a symlink) and the new one
+    installs the same files below the resolved directory D2"""
+    parts = D.split("/")
+    parents = ["/".join(parts[:i]) for i in range(1, len(parts))]
+    if D2 is None:
+        files = [k for k, v in t.items() if k.startswith(D + "/") and v[0] != "d" and "/" not in k[len(D) + 1:]][:3]
+        fresh = D + "/m1"
+        old = parents + [D] + files
+        new = parents + [D] + files[:1] + [fresh]
+    else:
+        files = [k for k, v in t.items() if k.startswith(D2 + "/") and v[0] != "d" and "/" not in k[len(D2) + 1:]][:3]
+        old = parents + [D] + [D + k[len(D2):] for k in files]
+        new = parents + [D2] + files[:2]
+    rng.shuffle(old)
+    rng.shuffle(new)
+    return {"mode": "replace", "old": old, "new": new, "flip": []}
+
+
+def gen_history(rng, n):
+    """{"kind": "history", tree, off, steps: [{"mutate": m | None, mode, old, new, flip}]}; the packages
+    of a step are generated against the tree as it is on disk when the step starts, so the steps are
+    filled in while the history runs (run_history)"""
+    t = gen_root(rng)
+    return {"kind": "history", "n": n, "tree": t, "off": rng.choice(["o", "o", "o/p", "s"]),
+            "slash": rng.random() < 0.3, "ext": rng.random() < 0.5, "post": False,
+            "directed": rng.random() < 0.5, "nsteps": rng.choice([2, 2, 3]), "seed": rng.getrandbits(32), "steps": None}
 
 
 # --------------------------------------------------------------------------- driving the implementation
@@ -543,6 +659,84 @@ def run_case(case, base):
     os.makedirs(cb)
     os.makedirs(tmp)
     O = build_tree(cb, case)
+    try:
+        return run_step(case, cb, O, tmp)
+    finally:
+        shutil.rmtree(cb, ignore_errors=True)
+        shutil.rmtree(tmp, ignore_errors=True)
+
+
+def run_history(h, base):
+    """run a history on ONE root path; returns [(step_case, r)] (skipped steps are left out).  When
+    h["steps"] is None the steps are generated here (and stored in h, which makes it replayable)."""
+    import random
+    cb = os.path.join(base, "h%d" % h["n"])
+    tmp = os.path.join(base, "ht%d" % h["n"])
+    os.makedirs(cb)
+    os.makedirs(tmp)
+    out = []
+    try:
+        O = build_tree(cb, h)
+        live = os.path.realpath(O)
+        steps = h["steps"]
+        gen = steps is None
+        if gen:
+            steps = []
+            rng = random.Random(h["seed"])
+            D = D2 = None
+        for k in range(h["nsteps"] if gen else len(steps)):
+            if gen:
+                t = read_tree(live)
+                m = None
+                if h["directed"]:
+                    if k == 0:
+                        cand = [d for d, v in t.items() if v[0] == "d" and any(
+                            q.startswith(d + "/") and t[q][0] == "f" and "/" not in q[len(d) + 1:] for q in t)
+                            and resolve_lit(t, d) == d and d + "64" not in t]
+                        if cand:
+                            D = rng.choice(cand)
+                            st = directed_pkgs(rng, t, D)
+                        else:
+                            st = gen_pkgs(rng, t, "replace")
+                    elif k == 1 and D is not None:
+                        m = ["migrate", D, D + "64"]
+                        apply_mutation(live, m)
+                        t = read_tree(live)
+                        st = directed_pkgs(rng, t, D, D + "64")
+                    else:
+                        m = gen_mutation(rng, t)
+                        apply_mutation(live, m)
+                        st = gen_pkgs(rng, read_tree(live))
+                else:
+                    if k > 0:
+                        m = gen_mutation(rng, t)
+                        apply_mutation(live, m)
+                        t = read_tree(live)
+                    st = gen_pkgs(rng, t, "replace" if rng.random() < 0.7 else None)
+                st["mutate"] = m
+                steps.append(st)
+            else:
+                st = steps[k]
+                apply_mutation(live, st.get("mutate"))
+            case = {"n": h["n"], "off": h["off"], "slash": h["slash"], "post": False, "mode": st["mode"],
+                    "old": st["old"], "new": st["new"], "flip": st.get("flip", []),
+                    "history": h, "step": k}
+            r = run_step(case, cb, O, tmp)
+            if "skip" not in r:
+                out.append((case, r))
+        if gen:
+            h["steps"] = steps
+    finally:
+        shutil.rmtree(cb, ignore_errors=True)
+        shutil.rmtree(tmp, ignore_errors=True)
+    return out
+
+
+def run_step(case, cb, O, tmp):
+    """one engine operation on the tree that is on disk below cb (offset O); nothing is cleaned up"""
+    from pkgcore.merge.engine import MergeEngine
+    from pkgcore.operations import observer as om
+
     obs = om.repo_observer(om.null_output())
     old_c = make_contents(case, "old", O)
     offset = O + ("/" if case["slash"] else "")
@@ -562,8 +756,6 @@ def run_case(case, base):
     except Exception as x:  # noqa: BLE001 - a merge the generator made impossible (file over directory, ...)
         pre_exc = repr(x)
     if pre_exc is not None:
-        shutil.rmtree(cb, ignore_errors=True)
-        shutil.rmtree(tmp, ignore_errors=True)
         return {"skip": pre_exc}
     rb = os.path.realpath(cb)
     before = fsx.snapshot(cb)
@@ -590,8 +782,6 @@ def run_case(case, base):
     inp = "@".join([offrel, show_snapshot(before), ";".join(case["old"]),
                     "-" if case["new"] is None else "+" + ";".join(case["new"])])
     res = "@".join([show_trace(run.trace, cb), show_diff(before, after), "1" if run.exc is not None else "0"])
-    shutil.rmtree(cb, ignore_errors=True)
-    shutil.rmtree(tmp, ignore_errors=True)
     return {"input": inp, "result": res, "before": before, "after": after, "old": f_old, "new": f_new,
             "prot": f_prot, "gone_after": gone_after, "exc": repr(run.exc) if run.exc else None,
             "post_exc": post_exc, "ntrace": len(run.trace),
@@ -734,13 +924,28 @@ def load_corpus():
     d = VERIF / "corpus" / "C20"
     if d.is_dir():
         for f in sorted(d.glob("*.json")):
-            c = json.loads(f.read_text())
-            c["tree"] = {k: tuple(v) for k, v in c["tree"].items()}
-            out.append(c)
+            out.append(from_json(json.loads(f.read_text())))
     return out
 
 
+def from_json(c):
+    c = dict(c)
+    c["tree"] = {k: tuple(v) for k, v in c["tree"].items()}
+    if c.get("kind") == "history":
+        c.setdefault("slash", False)
+        c.setdefault("ext", False)
+        c.setdefault("post", False)
+    return c
+
+
 def case_json(case):
+    if "history" in case:       # a step of a history: the whole (replayable) history up to this step
+        h = dict(case["history"])
+        h["tree"] = {k: list(v) for k, v in h["tree"].items()}
+        h["steps"] = [dict(st) for st in (h["steps"] or [])][:case["step"] + 1] if h["steps"] else None
+        h["failing_step"] = case["step"]
+        h.update({"mode": case["mode"], "old": case["old"], "new": case["new"]})
+        return h
     c = dict(case)
     c["tree"] = {k: list(v) for k, v in case["tree"].items()}
     return c
@@ -751,7 +956,7 @@ def evaluate(chk, rows, name="unmerge"):
     cases = [(bstr(r["input"]) + "%bs", Raw("(VS (s2l " + bstr(r["result"]) + "%bs))")) for _, r in rows]
     return chk.coq_eval(name, IMPORTS, "bstr", cases,
                         ["mismatches run_case cases",
-                         "where_ (fun i r => negb (spec_ok (dec_case i) r)) cases"], shard=36)
+                         "where_ (fun i r => negb (spec_ok (dec_case i) r)) cases"], shard=30)
 
 
 def hook_order_cases():
@@ -804,23 +1009,35 @@ def main(chk: Check):
     base = scratch_base()
     rows, skipped, hist = [], 0, {}
     try:
-        todo = load_corpus()
-        # quick 100, thorough 480; a changed fingerprint doubles the quick budget
-        n = 480 if chk.thorough else (200 if chk.fingerprint_changed else 100)
-        k = 0
-        while len(todo) < n + len(load_corpus()):
+        corpus = load_corpus()
+        todo = list(corpus)
+        # quick 70 single cases + 10 histories (2-3 operations each on one root), thorough 400 + 40;
+        # a changed fingerprint doubles the quick budget
+        n, nh = (400, 40) if chk.thorough else ((140, 20) if chk.fingerprint_changed else (70, 10))
+        for _ in range(nh):
+            todo.append(gen_history(chk.rng, 0))
+        for _ in range(n):
             todo.append(gen_case(chk.rng, 0))
+        nhist = nsteps = 0
         for k, case in enumerate(todo):
             case["n"] = k
-            r = run_case(case, base)
-            if "skip" in r:
-                skipped += 1
-                continue
-            rows.append((case, r))
-            key = case["mode"] + ("/off=" + (case["off"] or "<base>"))
-            hist[key] = hist.get(key, 0) + 1
-            if nontrivial_key(case, r):
-                chk.nontrivial(r["input"])
+            if case.get("kind") == "history":
+                got = run_history(case, base)
+                nhist += 1
+                nsteps += len(got)
+                skipped += len(case["steps"] or []) - len(got)
+            else:
+                r = run_case(case, base)
+                got = [(case, r)] if "skip" not in r else []
+                skipped += 1 - len(got)
+            for c, r in got:
+                rows.append((c, r))
+                key = c["mode"] + ("/off=" + (c["off"] or "<base>")) + ("/history" if "history" in c else "")
+                hist[key] = hist.get(key, 0) + 1
+                if nontrivial_key(c, r):
+                    chk.nontrivial(r["input"])
+        chk.cov["histories"] = nhist
+        chk.cov["history_steps"] = nsteps
     finally:
         shutil.rmtree(base, ignore_errors=True)
     chk.count("unmerge", len(rows))
@@ -899,20 +1116,26 @@ def main(chk: Check):
 
 def replay(chk: Check, data):
     d = data.get("detail", data)
-    case = dict(d.get("input", d))
-    case["tree"] = {k: tuple(v) for k, v in case["tree"].items()}
+    case = from_json(d.get("input", d))
     case["n"] = 0
     base = scratch_base()
     try:
-        r = run_case(case, base)
+        if case.get("kind") == "history":
+            got = run_history(case, base)
+        else:
+            r = run_case(case, base)
+            got = [(case, r)] if "skip" not in r else []
+            if not got:
+                print("merge refused:", r["skip"])
     finally:
         shutil.rmtree(base, ignore_errors=True)
-    if "skip" in r:
-        print("merge refused:", r["skip"])
-        return
-    print("model input        :", r["input"])
-    print("implementation     :", r["result"])
-    print("statement failures :", oracle(case, r))
-    res = evaluate(chk, [(case, r)], "replay")
-    print("model agrees with implementation:", res is not None and not res[0])
-    print("spec accepts implementation     :", res is not None and not res[1])
+    for c, r in got:
+        if "history" in c:
+            print("--- step", c["step"], "mutation before it:", c["history"]["steps"][c["step"]].get("mutate"))
+        print("model input        :", r["input"])
+        print("implementation     :", r["result"])
+        print("statement failures :", oracle(c, r))
+    if got:
+        res = evaluate(chk, got, "replay")
+        print("model agrees with implementation on steps:", res is not None and [i for i in range(len(got)) if i not in res[0]])
+        print("spec accepts implementation on steps     :", res is not None and [i for i in range(len(got)) if i not in res[1]])
